@@ -2005,7 +2005,8 @@ class ErrorGen(ProgramGen):
               "rt-intrep", "rt-callfield", "rt-forstep", "assert-tab", "assert-int"]
     SITES = ["direct", "nested", "deep", "for", "while", "repeat", "forin", "iterator", "meta-index", "meta-newindex", "meta-arith",
              "meta-call", "meta-eq", "meta-lt", "meta-concat", "meta-len", "meta-unm", "operand", "argument", "ctor", "methodarg",
-             "concat", "cond", "key", "tailcall", "retparen", "vararg", "andor", "upvalue-fn", "rhs-multi"]
+             "concat", "cond", "key", "tailcall", "retparen", "vararg", "andor", "upvalue-fn", "rhs-multi",
+             "close-scope", "close-two", "close-in-loop", "co-resume-rethrow", "co-wrap"]
     CATCHES = ["pcall", "pcall-args", "xpcall-id", "xpcall-wrap", "xpcall-none", "xpcall-multi", "rethrow", "pcall-pcall", "inner-caught",
                "xpcall-in-pcall", "pcall-in-xpcall", "select-results", "pcall-method", "resume", "wrap-pcall", "resume-in-pcall"]
 
@@ -2114,6 +2115,21 @@ class ErrorGen(ProgramGen):
         if site == "upvalue-fn":
             return [Local([x], [Int(0)]), LocalFn(g, Fn([], False, [Assign([Var(x)], [Bin("add", Var(x), Int(1))])] + rs)),
                     LocalFn(h, Fn([], False, [SCall(Call(Var(g))), em(Str("unreached"))])), SCall(Call(Var(h)))]
+        if site in ("close-scope", "close-two", "close-in-loop", "co-resume-rethrow", "co-wrap") and not self.pf["stage4"]:
+            return rs
+        if site == "close-scope":
+            return [Local([t], [self.closer(Int(1))], ["close"]), em(Str("scope"))] + rs
+        if site == "close-two":
+            return [Local([t], [self.closer(Int(1))], ["close"]), Do([Local([x], [self.closer(Int(2))], ["close"])] + rs), em(Str("unreached"))]
+        if site == "close-in-loop":
+            return [For(x, Int(1), Int(3), None, [Local([t], [self.closer(Var(x))], ["close"]), If([(Bin("eq", Var(x), Int(2)), rs)], None)])]
+        if site == "co-resume-rethrow":
+            return [Local([t], [Call(Fld(Var("coroutine"), "create"), Fn([], False, [em(Str("co"))] + rs))]),
+                    Local([x, h], [Call(Fld(Var("coroutine"), "resume"), Var(t))]), em(Str("resumed"), Var(x), Call(Fld(Var("coroutine"), "status"), Var(t))),
+                    SCall(Call(Var("error"), Var(h), Int(0)))]
+        if site == "co-wrap":
+            return [Local([t], [Call(Fld(Var("coroutine"), "wrap"), Fn([], False, [SCall(Call(Fld(Var("coroutine"), "yield"), Int(1))), em(Str("co"))] + rs))]),
+                    em(Call(Var(t))), SCall(Call(Var(t)))]
         if site == "rhs-multi":
             return [f, Local([x, t], [Int(1), Int(2)]), Assign([Var(x), Var(t)], [Var(t), Call(Var(g))])]
         return rs
@@ -2127,6 +2143,8 @@ class ErrorGen(ProgramGen):
             catch = "pcall"
         if catch == "wrap-pcall" and (val.startswith("str") or val.startswith("rt-") or val == "strdef"):
             catch = "resume"        # what coroutine.wrap does to string errors is not fixed by the manual
+        if site == "co-wrap" and (val.startswith("str") or val.startswith("rt-")):
+            site = "co-resume-rethrow"     # coroutine.wrap may decorate string errors (manual silent)
         if val == "flt" and not self.pf["floats"]:
             val = "int"
         if val == "str2" and site in ("tailcall", "direct", "iterator", "retparen") and not self.pf.get("level2_any"):
